@@ -6,20 +6,35 @@ from common import sh2
 
 LEVEL = "proof"
 MANIFEST = {
-    "technique": "Coq proof over a hand-written Gallina model of cmd/mp4ff-crop's table-cropping routines on the C09 table model "
-                 "+ differential correspondence (extracted OCaml vs the real unexported routines reached through a verif-tagged test "
-                 "driver) + whole-tool runs of the built mp4ff-crop binary on synthesized progressive files",
-    "level_text": "Theorems (coq/c10/C10Theorems.v): for ALL consistent tables and every k in 1..N the tables produced by the model of "
-                  "cropStts/cropCtts/cropStsz/cropSdtp/cropStss/cropStsc expand to the k-prefix of the input's expansion, and the "
-                  "cropped tables are again consistent (so every C09 theorem applies to the output); k as computed by findTrakEnds is "
-                  "the number of samples starting before the track end time. The model is tied to /repo on every run (every k of every "
-                  "generated table, findEndTime/findTrakEnds/fillTrakOutsAndByteRanges on grids). C10_layout: for any number of tracks with "
-                  "arbitrary chunk interleaving the new mdat holds every kept (truncated) chunk's bytes at its new offset, hence every "
-                  "kept sample's bytes. findEndTime is characterised with and without stss (C10_end_time_spec / _nostss).",
-    "level_note": "Trusted: Coq kernel, extraction, OCaml/Go glue, hand transcription checked only differentially; box encoding of the "
-                  "output file, updateChunkOffsets (shift by the new moov size), writeMdat (copying the ranges) and the header duration arithmetic "
-                  "(writeUptoMdat) are exercised by the whole-tool runs only; fill_loop termination within the fuel is not proved (the theorem is "
-                  "conditional on the loop returning).",
+    "technique": "Coq proof over a hand-written Gallina model of cmd/mp4ff-crop (table-cropping routines, fillTrakOutsAndByteRanges, "
+                 "updateChunkOffsets, the duration arithmetic of writeUptoMdat, writeMdat over C08's CopyData model) on the C09 table model "
+                 "+ differential correspondence (extracted OCaml vs the real unexported routines and cropMP4 on virtual input files, reached "
+                 "through a verif-tagged test driver) + whole-tool runs of the built mp4ff-crop binary on synthesized progressive files",
+    "level_text": "Theorems (coq/c10/C10Theorems.v), all for ALL inputs: (1) for consistent tables and every k in 1..N the tables produced by "
+                  "cropStts/cropCtts/cropStsz/cropSdtp/cropStss/cropStsc expand to the k-prefix of the input's expansion and are consistent "
+                  "again; k as computed by findTrakEnds is the number of samples starting before the track end time; findEndTime is "
+                  "characterised with and without stss. (2) fillTrakOutsAndByteRanges TERMINATES within 1 + (kept chunks) iterations and never "
+                  "fails (C10_fill_terminates), so the layout theorem is unconditional (C10_layout_total); its byte ranges lie in the input file "
+                  "(C10_layout_ranges). (3) C10_samples_end_to_end: any number of tracks, stco or co64, arbitrary interleaving, output file = "
+                  "S arbitrary bytes (the re-encoded non-mdat boxes) ++ mdat header of h bytes ++ concatenated ranges: whenever cropStblChildren "
+                  "and updateChunkOffsets (shift by S + h - firstOffset; the repaired text refuses an stco offset >= 2^32) succeed on a track, "
+                  "every new chunk offset o satisfies S+h <= o and o + kept chunk bytes <= end of the new mdat, and every kept sample located "
+                  "through the OUTPUT's tables (C09Spec S_offset_of/S_size) has the input's size and the input's bytes; h must equal the length of "
+                  "the header written (8, C10_write_mdat) - C10_offsets_input_header_refuted shows the statement false for h = the input's 16-byte "
+                  "header. (4) C10_write_mdat: writeMdat on the lazily decoded input mdat writes an 8-byte header + exactly the bytes of the ranges. "
+                  "(5) C10_header_durations: whenever writeUptoMdat succeeds every tkhd duration is the new duration <= the original, mdhd is "
+                  "untouched, every elst segment duration <= the original, and the new mvhd duration <= the original for a conforming input (mvhd "
+                  "duration >= some tkhd duration); without that guard it is false (C10_mvhd_duration_refuted, known finding C10-F9). "
+                  "Explored only (correspondence + search): the composition findEndTime -> findTrakEnds -> ... -> writeMdat as one function "
+                  "(crop_mp4, tied to cropMP4 on virtual files incl. a 4 GiB one), and the whole binary on synthesized files (8/16-byte input mdat "
+                  "header, mdat before/after moov, free/skip/unknown boxes in between, stco/co64): every kept sample is read back through the "
+                  "output's tables and compared byte by byte, every chunk checked to lie inside the new mdat.",
+    "level_note": "Trusted: Coq kernel, extraction, OCaml/Go glue, hand transcription checked only differentially; the box ENCODING of the "
+                  "output (moov/ftyp/free bytes and their total size S = sizeWithoutMdat) is not modelled: the theorems hold for any S bytes, and "
+                  "the whole-tool runs decode the real output; the end-to-end theorem is stated per track on the Coq-level composition of the "
+                  "modelled routines (S_offset_of of C09Spec on the output tables, consistent cropped tables) rather than through "
+                  "C09's trak_get_ranges on the shifted tables; writeMdat is proved for the lazy mdat mode the tool uses (non-empty payload, file "
+                  "< 2^63 bytes, payload < 2^32-8).",
 }
 
 
@@ -42,15 +57,22 @@ def build(ctx):
 def run(ctx):
     ctx.cov["trusted_base"] = common.TRUSTED_BASE_COMMON + [
         "model: coq/c10/C10Model.v is a hand transcription of cropStts/Stss/Ctts/Stsc/Stsz/Sdtp, updateStco/Co64, findEndTime, "
-        "findTrakEnds, fillTrakOutsAndByteRanges of cmd/mp4ff-crop/main.go over the C09 table model (coq/c09/C09Model.v)",
+        "findTrakEnds, fillTrakOutsAndByteRanges, updateChunkOffsets, writeUptoMdat (durations), writeMdat, cropToTime of "
+        "cmd/mp4ff-crop/main.go over the C09 table model (coq/c09/C09Model.v) and C08's CopyData model (coq/c08/C08Model.v)",
+        "the size of the re-encoded non-mdat boxes (sizeWithoutMdat) is an input of the model: in the virt correspondence it is read "
+        "off the real output",
         "spec: coq/c09/C09Spec.v expansion + consistent; the prefix statements of coq/c10/C10Theorems.v",
         "test driver: /repo/cmd/mp4ff-crop/c10_verif_test.go (add-only, //go:build verif) builds the boxes and calls the routines",
-        "search oracle: harness/c09/tbl Expand (independent expansion) on the routines' results and on decoded output files",
+        "search oracle: harness/c09/tbl Expand (independent expansion) on the routines' results and on decoded output files; "
+        "closed formulas for the shifted offsets, the durations and the mdat bytes",
     ]
     ctx.assumptions += [
         "input tables satisfy C09Spec.consistent; 1 <= k <= N",
         "whole tool: files synthesized by the harness (1-3 tracks, video/audio, with/without ctts/stss/sdtp/edts, stco/co64, "
-        "interleaved chunks with optional gaps, mdat before or after moov, 32-bit mdat header)",
+        "interleaved chunks with optional gaps, mdat before or after moov, 8-byte or 16-byte (largesize) mdat header, optional "
+        "free/skip/unknown box between moov and mdat, 1 in 12 with an mvhd duration below the track durations)",
+        "end-to-end theorem: static_ok (consistent tables, non-zero track ids, chunk offsets in [1,2^62), chunks inside the file), "
+        "2^62 + 2*(sample bytes) < 2^64, S + h + sample bytes < 2^64",
         "the property is conditional on the tool succeeding; refusals (error exit) are counted, crashes are failures",
     ]
     exe, tdrv, tool, model = build(ctx)
@@ -89,7 +111,12 @@ def run(ctx):
             "distribution": "stsc 1-4 entries x 1-3 chunks x 1-4 samples/chunk, 35% varying description ids, ctts 60%, stss 70%, sdtp 40%, "
                             "uniform stsz 25%, stco/co64; crop for EVERY k in 0..N+1; findTrakEnds on 6 random + 12 sample-start times "
                             "with equal/different timescales; findEndTime on 8 durations from 1 ms to beyond the end; "
-                            "fillTrakOutsAndByteRanges on 1-3 interleaved tracks x 4 random k vectors",
+                            "fillTrakOutsAndByteRanges on 1-3 interleaved tracks x 4 random k vectors; updateChunkOffsets on those tracks "
+                            "(sizeWithoutMdat 24-6000, 8/16-byte input header, offsets pushed to the 2^32 border, malformed: firstOffset above "
+                            "the offsets, sizes near 2^63/2^64); writeUptoMdat durations (1-3 tracks, 0-2 elst boxes, 1/12 refused, 1/10 short "
+                            "mvhd, malformed: timescale 0, wrapping product); writeMdat (0-4 ranges, lazy 3/4, malformed: outside payload/file, "
+                            "inverted, empty lazy payload); cropMP4 on virtual files (3 durations per table set, mdat first/last, 8/16-byte "
+                            "header, free/skip/unknown box) + the 4 GiB stco witness",
         }
         ctx.cov["samples"] += [l[:300] for l in lines[:2]] + [l[:300] for l in lines[-2:]]
         ctx.log("correspondence: %d cases %s, %d mismatches" % (len(lines), kinds, len(mism)))
@@ -129,7 +156,8 @@ def run(ctx):
                           "model/implementation disagree on %d cases, first: %s" % (len(mism), mism[0][:160]), no_input=True)
         ctx.proof_violation_if_broken(pr, "c10 search: %d evaluations, no failing input" % evals)
         ctx.cov["rule"] = ("corr: %d generated consistent tables, crop for every k in 0..N+1 (all six routines), findTrakEnds/findEndTime/"
-                           "fillTrakOutsAndByteRanges grids; distinct = distinct (op,arg,tables); search: prefix property on every result "
+                           "fillTrakOutsAndByteRanges/updateChunkOffsets/writeUptoMdat/writeMdat/cropMP4-on-virtual-file grids; distinct = "
+                           "distinct (op,arg,tables); search: prefix property, offsets-inside-mdat, durations, mdat bytes on every result "
                            "with the harness's own expansion + %d synthesized files x ~11 durations through the built binary" % (n, nf))
     finally:
         shutil.rmtree(tmp, ignore_errors=True)
